@@ -51,6 +51,15 @@ def bool_fn(ctx, name, lib_call, truthy):
     return b
 
 
+def check_ed25519_strict(ctx):
+    """verify_ed25519 answers true only from VerifyingKey::verify_strict(message, signature) on its own operands (shared with C33: a
+    non-strict verification accepts message-independent signatures for small-order keys)"""
+    if ctx.anchor(SV + "verify_ed25519"):
+        b = bool_fn(ctx, "verify_ed25519", r"VerifyingKey::verify_strict$", None)
+        check_args(ctx, "verify_ed25519|verify_strict", b, r"VerifyingKey::verify_strict$", {0: r"^param:2$", 1: r"^param:1$", 2: r"^param:3$"})
+        ctx.ob("verify_ed25519|no-non-strict-verify", not b.calls(r"VerifyingKey::verify$|Verifier.*::verify$"), "the non-strict verify is not used", b.loc())
+
+
 def run(ctx):
     F = ctx.F
     ctx.rule("result provenance: `true` / `Some(key)` is produced only from the success arm / verdict of the library verification call, "
@@ -74,10 +83,7 @@ def run(ctx):
     if ctx.anchor(SV + "verify_secp256k1"):
         b = bool_fn(ctx, "verify_secp256k1", r"::verify_ecdsa$", None)
         check_args(ctx, "verify_secp256k1|verify_ecdsa", b, r"::verify_ecdsa$", {1: r"^param:1$", 2: r"^param:3$", 3: r"^param:2$"})
-    if ctx.anchor(SV + "verify_ed25519"):
-        b = bool_fn(ctx, "verify_ed25519", r"VerifyingKey::verify_strict$", None)
-        check_args(ctx, "verify_ed25519|verify_strict", b, r"VerifyingKey::verify_strict$", {0: r"^param:2$", 1: r"^param:1$", 2: r"^param:3$"})
-        ctx.ob("verify_ed25519|no-non-strict-verify", not b.calls(r"VerifyingKey::verify$|Verifier.*::verify$"), "the non-strict verify is not used", b.loc())
+    check_ed25519_strict(ctx)
     SUCCESS = G_enum(r"blst::BLST_ERROR$", ["BLST_SUCCESS"])
     if ctx.anchor(SV + "verify_bls12381_v1"):
         b = bool_fn(ctx, "verify_bls12381_v1", r"^$", SUCCESS)
